@@ -917,8 +917,17 @@ impl<'r> Gen<'r> {
             Ty::Struct(_) | Ty::Array(..) => {
                 let vars: Vec<Var> = self.visible_vars().into_iter().filter(|v| v.ty == *ty).collect();
                 if vars.is_empty() {
-                    // callers make sure one exists (see gen_function); a cast of zero is the last resort for structs
-                    format!("({})0", self.type_name(ty))
+                    // callers make sure one exists (see gen_function); a scalar cast is the last resort for structs: every member
+                    // gets the value, the operand is evaluated once
+                    if matches!(ty, Ty::Struct(_)) && !self.in_index && self.rng.chance(1, 3) {
+                        self.in_index = true;
+                        let e = self.expr(Kind::Int, 1, 1);
+                        self.in_index = false;
+                        self.feature("scalar-to-struct-cast");
+                        format!("({})({})", self.type_name(ty), e)
+                    } else {
+                        format!("({})0", self.type_name(ty))
+                    }
                 } else {
                     self.rng.pick(&vars).path()
                 }
